@@ -9,6 +9,7 @@ import (
 	"os"
 	"strings"
 	"time"
+	wdog "verifharness/wd"
 
 	"github.com/goatcms/goatcore/app"
 	"github.com/goatcms/goatcore/app/scope"
@@ -50,7 +51,7 @@ func cmdEvWitness(args []string) error {
 				byKey["reentrant:lost"]++
 				examples["reentrant:lost"] = append(examples["reentrant:lost"], map[string]string{"key": "reentrant:lost", "op": name, "backend": "eventscope", "what": "a listener registered from inside a listener is never called"})
 			}
-		case <-time.After(3 * time.Second):
+		case <-wdog.After(3 * time.Second):
 			byKey["deadlock:reentrant-on"]++
 			examples["deadlock:reentrant-on"] = append(examples["deadlock:reentrant-on"], map[string]string{"key": "deadlock:reentrant-on", "op": name, "backend": "eventscope",
 				"what": "Trigger did not return within 3 s: its listener called On on the same scope"})
